@@ -788,10 +788,16 @@ class BaseEvent(BaseModel, Generic[T_EventResultType]):
     @property
     def event_bus(self) -> 'EventBus':
         """Get the EventBus that is currently processing this event"""
-        from bubus.service import EventBus, inside_handler_context
+        from bubus.service import EventBus, _current_event_context, _current_eventbus_context, inside_handler_context
 
         if not inside_handler_context.get():
             raise AttributeError('event_bus property can only be accessed from within an event handler')
+
+        # Inside one of this event's own handlers: the bus that is running that handler
+        # (event_path[-1] is a different bus as soon as the event has been forwarded on)
+        current_bus = _current_eventbus_context.get()
+        if current_bus is not None and _current_event_context.get() is self:
+            return current_bus
 
         # The event_path contains all buses this event has passed through
         # The last one in the path is the one currently processing
